@@ -14,9 +14,10 @@ var c06CallerWaits = map[string]string{
 
 // call sites that may read precommitted transactions
 var c06PrecommittedAllowed = map[string]string{
-	"embedded/store.(*ImmuStore).syncBinaryLinking -> embedded/store.(*ImmuStore).newTxReader": "recovery: the hash tree covers precommitted transactions too",
-	"pkg/database.(*db).AllowCommitUpto -> embedded/store.(*ImmuStore).ReadTxHeader":         "replica: validates the Alh of a precommitted tx before allowing its commit",
-	"pkg/database.(*db).ExportTxByID -> embedded/store.(*ImmuStore).ReadTxHeader":            "primary: validates the precommitted state a replica reports",
+	"embedded/store.(*ImmuStore).syncBinaryLinking -> embedded/store.(*ImmuStore).newTxReader":         "recovery: the hash tree covers precommitted transactions too",
+	"embedded/store.(*ImmuStore).rewindStaleBinaryLinking -> embedded/store.(*ImmuStore).ReadTxHeader": "recovery (called by OpenWith only): compares hash-tree leaves with the chain, precommitted transactions included",
+	"pkg/database.(*db).AllowCommitUpto -> embedded/store.(*ImmuStore).ReadTxHeader":                   "replica: validates the Alh of a precommitted tx before allowing its commit",
+	"pkg/database.(*db).ExportTxByID -> embedded/store.(*ImmuStore).ReadTxHeader":                      "primary: validates the precommitted state a replica reports",
 }
 
 // index reads that are not part of the KV API the property lists
@@ -37,7 +38,9 @@ func c06(c *Ctx) {
 	r := "C06.1/reads-wait"
 	wait := callTo(dbT+"WaitForIndexingUpto", storeT+"WaitForIndexingUpto", dbT+"snapshotSince", storeT+"SnapshotMustIncludeTxID", storeT+"SnapshotMustIncludeTxIDWithRenewalPeriod")
 	noWait := whenCond(true, func(a string) bool { return strings.HasSuffix(a, ".NoWait") })
-	atTx := whenCond(false, func(a string) bool { return strings.Contains(a, ".AtTx == const:0") || strings.Contains(a, "const:0 == ") && strings.Contains(a, ".AtTx") })
+	atTx := whenCond(false, func(a string) bool {
+		return strings.Contains(a, ".AtTx == const:0") || strings.Contains(a, "const:0 == ") && strings.Contains(a, ".AtTx")
+	})
 	storeReads := []string{storeT + "Get", storeT + "GetBetween", storeT + "GetWithFilters", storeT + "GetWithPrefix", storeT + "GetWithPrefixAndFilters", storeT + "History"}
 	nsinks := 0
 	for _, fn := range c.allFns {
